@@ -14,7 +14,8 @@
   The full-strength statement  `∀ M p, M.accepts p = true ↔ UPA Σ v11 p ∧ EDC T p`  is FALSE for the
   pinned algorithm in both directions (known finding C15-F0): see
   `checkModel_missed_counterexample`, `checkModel_false_alarm_counterexample`,
-  `checkModel_false_alarm_root_counterexample`, `checkModel_edc_missed_counterexample`.
+  `checkModel_false_alarm_root_counterexample`, `checkModel_edc_missed_counterexample`,
+  `checkModel_indirect_member_missed_counterexample`, `checkModel_shared_particle_missed_counterexample`.
   What is proved about M: `checkModel_refines_partial` (the equivalence holds on every flat choice of
   plain element particles), and for all models: `checkModel_accepts_edc_direct` (an accepted model has no
   two visited element particles with the same name and different types) and
@@ -96,6 +97,85 @@ theorem upa_iff_rx (sigma : List QN) (v11 : Bool) (p : Particle) :
     have o2' := Rx.over_cons.mp o2.2
     refine h u o1.1 ⟨(a, x), o1'.1, (a, y), o2'.1, ?_, v1, v2, o1'.2, o2'.2, hl1, hl2⟩
     simp [compete, hcomp]
+
+/-- **The alphabet only matters through the names some particle matches**: enlarging Σ by names that
+    no particle of the model matches does not change UPA.  In particular, for a model without
+    wildcards, Σ = the element names of the model (with their substitution members) decides UPA over
+    every larger alphabet; the choice of one representative name per wildcard region remains an
+    assumption of the harness. -/
+theorem upa_alphabet_complete (sigma sigma' : List QN) (v11 : Bool) (p : Particle)
+    (hsub : ∀ a ∈ sigma, a ∈ sigma')
+    (hcov : ∀ a ∈ sigma', (∃ l ∈ p.leaves, l.matches a = true) → a ∈ sigma) :
+    UPA sigma v11 p ↔ UPA sigma' v11 p := by
+  have matched : ∀ {w : List ASym}, Rx.Lang mm p.toRx w → OverNames sigma' w → OverNames sigma w := by
+    intro w hl ho c hc
+    obtain ⟨l, hlm, hm⟩ := Rx.lang_syms mm p.toRx w hl c hc
+    rw [Particle.leaves_toRx] at hlm
+    simp only [mm, Bool.and_eq_true] at hm
+    exact hcov c.1 (ho c hc) ⟨l, hlm, hm.2⟩
+  constructor
+  · intro h u v1 v2 a x y hu hv1 hv2 ha hcomp hl1 hl2
+    have o1 : OverNames sigma' (u ++ (a, x) :: v1) := by
+      intro c hc
+      rcases List.mem_append.mp hc with hc | hc
+      · exact hu c hc
+      · rcases List.mem_cons.mp hc with rfl | hc
+        · exact ha
+        · exact hv1 c hc
+    have o2 : OverNames sigma' (u ++ (a, y) :: v2) := by
+      intro c hc
+      rcases List.mem_append.mp hc with hc | hc
+      · exact hu c hc
+      · rcases List.mem_cons.mp hc with rfl | hc
+        · exact ha
+        · exact hv2 c hc
+    have m1 := matched hl1 o1
+    have m2 := matched hl2 o2
+    exact h u v1 v2 a x y (fun c hc => m1 c (by simp [hc])) (fun c hc => m1 c (by simp [hc]))
+      (fun c hc => m2 c (by simp [hc])) (m1 (a, x) (by simp)) hcomp hl1 hl2
+  · intro h u v1 v2 a x y hu hv1 hv2 ha hcomp hl1 hl2
+    exact h u v1 v2 a x y (fun c hc => hsub _ (hu c hc)) (fun c hc => hsub _ (hv1 c hc))
+      (fun c hc => hsub _ (hv2 c hc)) (hsub _ ha) hcomp hl1 hl2
+
+/-- **Representatives suffice**: let `rep` map every name of a larger alphabet Σ' to a name of Σ that
+    every particle of the model treats in the same way (matches both or neither).  Then UPA relative to
+    Σ implies UPA relative to Σ'.  This is the precise form of the harness' assumption "one
+    representative name per region": it is an assumption only about the name-matching of the leaves,
+    not about the structure of the model. -/
+theorem upa_representatives (sigma sigma' : List QN) (v11 : Bool) (p : Particle) (rep : QN → QN)
+    (hrep : ∀ a ∈ sigma', rep a ∈ sigma)
+    (hsame : ∀ l ∈ p.leaves, ∀ a ∈ sigma', l.matches (rep a) = l.matches a)
+    (h : UPA sigma v11 p) : UPA sigma' v11 p := by
+  intro u v1 v2 a x y hu hv1 hv2 ha hcomp hl1 hl2
+  let f : ASym → ASym := fun c => (rep c.1, c.2)
+  have over : ∀ {w : List ASym}, OverNames sigma' w → OverNames sigma (w.map f) := by
+    intro w hw c hc
+    obtain ⟨d, hd, rfl⟩ := List.mem_map.mp hc
+    exact hrep d.1 (hw d hd)
+  have keep : ∀ {w : List ASym}, OverNames sigma' w → Rx.Lang mm p.toRx w → Rx.Lang mm p.toRx (w.map f) := by
+    intro w hw hl
+    refine Rx.lang_map mm f p.toRx w ?_ hl
+    intro l hlm c hc
+    rw [Particle.leaves_toRx] at hlm
+    simp only [mm, f, hsame l hlm c.1 (hw c hc)]
+  have o1 : OverNames sigma' (u ++ (a, x) :: v1) := by
+    intro c hc
+    rcases List.mem_append.mp hc with hc | hc
+    · exact hu c hc
+    · rcases List.mem_cons.mp hc with rfl | hc
+      · exact ha
+      · exact hv1 c hc
+  have o2 : OverNames sigma' (u ++ (a, y) :: v2) := by
+    intro c hc
+    rcases List.mem_append.mp hc with hc | hc
+    · exact hu c hc
+    · rcases List.mem_cons.mp hc with rfl | hc
+      · exact ha
+      · exact hv2 c hc
+  have k1 := keep o1 hl1
+  have k2 := keep o2 hl2
+  simp only [List.map_append, List.map_cons] at k1 k2
+  exact h (u.map f) (v1.map f) (v2.map f) (rep a) x y (over hu) (over hv1) (over hv2) (hrep a ha) hcomp k1 k2
 
 /-- **Certificates are sound**: if the finite set `S` of expressions contains the model, is closed
     under live normalised derivatives by every attributed symbol and no state of `S` lets two
@@ -184,7 +264,7 @@ theorem upa_of_disjoint (sigma : List QN) (v11 : Bool) (p : Particle)
   Full statement (false for the pinned algorithm, see the counter-examples below):
       `∀ M p, M.accepts p = true ↔ UPA Σ v11 p ∧ EDC T p`.
   Proved: the statement for every `choice(e1 … en){1,1}` of plain element particles with arbitrary
-  occurrence ranges (XSD 1.0, no substitution groups), any number of members. -/
+  occurrence ranges (both XSD versions, no substitution groups), any number of members. -/
 
 /-- guard of the partial refinement theorem: the model is `flatChoice r items`, the context `M` returns
     the data of the items, the names are in Σ, the occurrence ranges are well formed and the type table
@@ -214,8 +294,13 @@ theorem declsOf_flat {M : Ctx} {sigma : List QN} {T : TypeTable} {r : Nat} {item
 theorem checkModel_refines_partial {M : Ctx} {sigma : List QN} {T : TypeTable} {r : Nat} {items : List FItem}
     (h : Frag15 M sigma T r items) :
     M.accepts (flatChoice r items) = true ↔
-      UPA sigma false (flatChoice r items) ∧ EDC T (flatChoice r items) := by
+      UPA sigma M.v11 (flatChoice r items) ∧ EDC T (flatChoice r items) := by
   rw [accepts_flat h.ctx]
+  have hnoany : ∀ x, isAnyId (flatChoice r items) x = false := by
+    intro x
+    simp only [isAnyId, flatChoice, Particle.leaves, leaves_mkParticles, List.any_eq_false, List.mem_map]
+    rintro l ⟨it, _, rfl⟩
+    simp [FItem.leaf, Leaf.isAny]
   have hsub : (live items).Sublist items := List.filter_sublist
   have hids : (live items).Pairwise (fun a b => a.id ≠ b.id) := h.ctx.ids.sublist hsub
   constructor
@@ -254,7 +339,7 @@ theorem checkModel_refines_partial {M : Ctx} {sigma : List QN} {T : TypeTable} {
       exact h.names it hm1
     refine hupa [] _ _ it.name it.id jt.id (fun c hc => nomatch hc) (hrep _ _) (hrep _ _) (h.names it hm1) ?_
       (by simpa using hl1) (by simpa using hl2)
-    simp [competing, hid]
+    simp [competing, hid, hnoany]
 
 /-! ### M deviates from S (known finding C15-F0): concrete witnesses, replayed on the real code -/
 
@@ -332,6 +417,47 @@ theorem checkModel_edc_missed_counterexample :
   rw [← edc_spec]
   decide
 
+def qd : QN := ⟨"urn:t", "d"⟩
+def qq : QN := ⟨"urn:t", "q"⟩
+
+/-- `(h | d)` where `d` substitutes `h` through the intermediate (abstract) member `q` -/
+def pTrans : Particle :=
+  .group 0 .choice 1 (some 1) (.cons (.leaf (.elem 1 [qh, qd, qs]) 1 (some 1)) (.cons (.leaf (.elem 2 [qd]) 1 (some 1)) .nil))
+def iTrans : List (Nat × EInfo) :=
+  [(1, { name := qh, ty := 0, direct := [qq, qs], subs := [(qs, 0), (qd, 0)] }),
+   (2, { name := qd, ty := 0, sgHead := some qq })]
+
+/-- XSD 1.0 `is_overlap` looks at the *direct* substitution-group head only: a head and an indirect
+    member of its substitution group are accepted side by side in a choice although both match the
+    indirect member's name (XSD 1.1, which walks `iter_substitutes`, refuses the model). -/
+theorem checkModel_indirect_member_missed_counterexample :
+    (ctxOf false 3 pTrans iTrans).accepts pTrans = true ∧ (ctxOf true 3 pTrans iTrans).accepts pTrans = false ∧
+      ¬ UPA [qh, qd, qs] false pTrans := by
+  refine ⟨by decide, by decide, ?_⟩
+  exact upa_witness_sound _ false pTrans [] (qd, 1) (qd, 2) (by decide)
+
+/-- `(G, G)` with the named group `G = (a?)` referenced twice.  As `check_model` iterates it: each
+    reference (ids 1, 4) has the *same* named-group object (id 2) as its only member, whose member is
+    the same element object (id 3). -/
+def pSharedM : Particle :=
+  let g : Particle := .group 2 .seq 1 (some 1) (.cons (.leaf (.elem 3 [qa]) 0 (some 1)) .nil)
+  .group 0 .seq 1 (some 1) (.cons (.group 1 .seq 1 (some 1) (.cons g .nil))
+    (.cons (.group 4 .seq 1 (some 1) (.cons g .nil)) .nil))
+/-- the same content model as validation reads it (`group.content`), with one id per occurrence -/
+def pSharedS : Particle :=
+  .group 0 .seq 1 (some 1) (.cons (.group 1 .seq 1 (some 1) (.cons (.leaf (.elem 2 [qa]) 0 (some 1)) .nil))
+    (.cons (.group 3 .seq 1 (some 1) (.cons (.leaf (.elem 4 [qa]) 0 (some 1)) .nil)) .nil))
+
+/-- `check_model` never compares a particle object with itself (`pe is e`, models.py:141): a model that
+    references one named group twice, `(a?)(a?)`, is accepted although the first `a` can be attributed
+    to either occurrence; written inline (`pSharedS` as the iterated tree) it is refused. -/
+theorem checkModel_shared_particle_missed_counterexample :
+    (ctxOf false 5 pSharedM [(3, { name := qa, ty := 0 })]).accepts pSharedM = true ∧
+      (ctxOf false 5 pSharedS [(2, { name := qa, ty := 0 }), (4, { name := qa, ty := 0 })]).accepts pSharedS = false ∧
+      ¬ UPA [qa] false pSharedS := by
+  refine ⟨by decide, by decide, ?_⟩
+  exact upa_witness_sound _ false pSharedS [] (qa, 2) (qa, 4) (by decide)
+
 /-! ### non-vacuity -/
 
 /-- a deterministic model with overlapping particles for which the oracle produces a certificate,
@@ -360,9 +486,33 @@ def pTwoAny : Particle :=
     (.cons (.leaf (.any 2 { ns := .set ["urn:o"], tns := "urn:t" }) 1 (some 1)) .nil))
 example : ((ctxOf true 3 pTwoAny []).checkModel pTwoAny).err = some (.sameGroup 1 2) := by decide
 
+/-- `(a, b?, a)`: Σ = {a, b} is complete w.r.t. Σ' = {a, b, h, s} (hypotheses of `upa_alphabet_complete`) -/
+example : (∀ a ∈ [qa, qb], a ∈ [qa, qb, qh, qs]) ∧
+    (∀ a ∈ [qa, qb, qh, qs], (∃ l ∈ pOk.leaves, l.matches a = true) → a ∈ [qa, qb]) := by decide
+
+/-- `(any[##any]? | a)`: with Σ = {a, b}, every name of Σ' = {a, b, h, s} has a representative
+    (hypotheses of `upa_representatives`: b represents the names the wildcard alone matches) -/
+example : (∀ a ∈ [qa, qb, qh, qs], (if a = qa then qa else qb) ∈ [qa, qb]) ∧
+    (∀ l ∈ pPrec.leaves, ∀ a ∈ [qa, qb, qh, qs], l.matches (if a = qa then qa else qb) = l.matches a) := by decide
+
 /-- `(a, b)`: the hypothesis of `upa_of_disjoint` holds -/
 example : ∀ l1 ∈ pOk.liveLeaves, ∀ l2 ∈ pOk.liveLeaves, l1.id ≠ l2.id → ∀ a ∈ [qb], ¬ (l1.matches a = true ∧ l2.matches a = true) := by
   decide
+
+/-- `(a{1,2} | b? | a{0,0})`: a member of the fragment of `checkModel_refines_partial` (guard holds),
+    accepted; and `(a{1,2} | b? | a)`: a member that is refused -/
+def fragItems (hi3 : Option Nat) : List FItem := [⟨1, qa, 1, some 2⟩, ⟨2, qb, 0, some 1⟩, ⟨3, qa, 0, hi3⟩]
+def fragInfos : List (Nat × EInfo) := [(1, { name := qa, ty := 0 }), (2, { name := qb, ty := 0 }), (3, { name := qa, ty := 0 })]
+def fragT : TypeTable := [(1, [(qa, 0)]), (2, [(qb, 0)]), (3, [(qa, 0)])]
+example : Frag15 (ctxOf false 4 (flatChoice 0 (fragItems (some 0))) fragInfos) [qa, qb] fragT 0 (fragItems (some 0)) :=
+  ⟨⟨by decide, by decide, by decide, by decide, by decide, by decide⟩, by decide, by decide, by decide⟩
+example : (ctxOf false 4 (flatChoice 0 (fragItems (some 0))) fragInfos).accepts (flatChoice 0 (fragItems (some 0))) = true := by
+  decide
+example : Frag15 (ctxOf true 4 (flatChoice 0 (fragItems (some 0))) fragInfos) [qa, qb] fragT 0 (fragItems (some 0)) :=
+  ⟨⟨by decide, by decide, by decide, by decide, by decide, by decide⟩, by decide, by decide, by decide⟩
+example : Frag15 (ctxOf false 4 (flatChoice 0 (fragItems (some 1))) fragInfos) [qa, qb] fragT 0 (fragItems (some 1)) ∧
+    (ctxOf false 4 (flatChoice 0 (fragItems (some 1))) fragInfos).accepts (flatChoice 0 (fragItems (some 1))) = false :=
+  ⟨⟨⟨by decide, by decide, by decide, by decide, by decide, by decide⟩, by decide, by decide, by decide⟩, by decide⟩
 
 /-- the hypotheses of `checkModel_accepts_edc_direct` are met by a model with two same-named elements -/
 example : (ctxOf false 4 pOk [(1, { name := qa, ty := 0 }), (2, { name := qb, ty := 0 }), (3, { name := qa, ty := 0 })]).accepts pOk = true ∧
